@@ -72,14 +72,16 @@ def run(tier, runner):
     r_alt = sets.iter_alt(progs)
     r_sib = sets.alt_sib(progs)
     r_var = variant_alt(progs)
+    r_is = sets.iter_state(progs)
+    r_is.require(4, 'iterator-returning modifiers')
     r_alt.require(4, 'iterator-returning removals')
     r_sib.require(8, 'begin/end/rbegin/rend/find/size ...')
     r_var.require(8, 'alternative accesses')
     return {
-        'results': [r_alt, r_sib, r_var],
+        'results': [r_alt, r_sib, r_var, r_is],
         'explanation': 'ITER-ALT: every iterator handed to the caller after a call that can remove the last element of the large-state set is built only after '
                        're-testing which container is active (so erase returns end() of the active container); ALT-SIB: begin/end/rbegin/rend/find/size '
-                       'select their alternative with the same predicate and consult only the active container; VARIANT-ALT: the variant iterator fixes '
+                       'select their alternative with the same predicate and consult only the active container; ITER-STATE: the iterator returned by insert / emplace / insert_small is built from the container that holds the elements at the return (the set once the call has grown, the inline vector otherwise); VARIANT-ALT: the variant iterator fixes '
                        'its alternative only in toSetIt/toVecIt, which SmallSet calls only in the matching state.  Both backings, N in {1,2,4}.',
         'assumptions': ['"visits every element exactly once" follows from the underlying containers (trusted)'],
         'trusted': ['libstdc++ 12 std::variant / std::set', 'the amcsa plugin export'],
